@@ -427,13 +427,35 @@ package jet
 //@   requires PInv(t) && len(t.imports) == 0 && t.extends == nil
 //@   modifies @Parse, t.Root, t.extends, t.imports
 //@   loop 0 invariant PInv(t) && t.Root != nil && fresh(t.Root)
-//@   loop 0 invariant [whitespace-before-any-extends-or-import-is-remembered] {C03} t.extends == nil && len(t.imports) == 0 && visits("(*Template).next", 0) > 0 ==> leading != nil && leading.typ == itemText
-//@   loop 0 invariant [whitespace-next-to-a-clause-is-dropped] {C03} t.extends != nil || len(t.imports) > 0 ==> leading == nil
-//@   callsite (*Template).newText 0 requires [kept-whitespace-is-rendered-verbatim] {C03} text == caller.leading.val && pos == caller.leading.pos
+//@   loop 0 invariant [every-whitespace-before-any-extends-or-import-is-remembered] {C03} t.extends == nil && len(t.imports) == 0 ==> len(leading) == visits("(*Template).next", 0) && forall(k, 0, len(leading), leading[k].typ == itemText)
+//@   loop 0 invariant [whitespace-next-to-a-clause-is-dropped] {C03} t.extends != nil || len(t.imports) > 0 ==> len(leading) == 0
+//@   loop 0 invariant [nothing-is-emitted-before-the-clauses-are-read] {C03} len(t.Root.Nodes) == 0
+//@   callsite (*Template).newText 0 requires [kept-whitespace-is-rendered-verbatim] {C03} text == caller.leading[caller.i].val && pos == caller.leading[caller.i].pos
 //@   loop 0 invariant [imports-non-nil] forall(i, 0, len(t.imports), t.imports[i] != nil)
 //@   loop 1 invariant PInv(t) && t.Root != nil && fresh(t.Root)
+//@   loop 1 invariant [kept-whitespace-is-emitted-in-order] {C03} len(t.Root.Nodes) == rangeindex + 1
 //@   loop 1 invariant [imports-non-nil] forall(i, 0, len(t.imports), t.imports[i] != nil)
+//@   loop 2 invariant PInv(t) && t.Root != nil && fresh(t.Root)
+//@   loop 2 invariant [imports-non-nil] forall(i, 0, len(t.imports), t.imports[i] != nil)
+//@   loop 2 step [parsed-nodes-follow-the-kept-whitespace] {C03} len(t.Root.Nodes) == prev(len(t.Root.Nodes)) + 1 && forall(k, 0, prev(len(t.Root.Nodes)), t.Root.Nodes[k] == prev(t.Root.Nodes[k]))
 //@   ensures PInv(t) && forall(i, 0, len(t.imports), t.imports[i] != nil)
+
+//@ func (*ListNode).append
+//@   props C02 C03 C08
+//@   requires l != nil
+//@   modifies l.Nodes
+//@   nopanic
+//@   ensures [appended-last] len(l.Nodes) == old(len(l.Nodes)) + 1 && l.Nodes[len(l.Nodes) - 1] == n && forall(i, 0, old(len(l.Nodes)), l.Nodes[i] == old(l.Nodes[i]))
+//@ func (*Template).newList
+//@   props C02 C03 C08
+//@   requires t != nil
+//@   nopanic
+//@   ensures [a-new-list-is-empty] result != nil && fresh(result) && len(result.Nodes) == 0 && result.NodeBase.NodeType == NodeList && result.NodeBase.Pos == pos
+//@ func (*Template).newText
+//@   props C02 C03
+//@   requires t != nil
+//@   nopanic
+//@   ensures [text-nodes-carry-the-text] result != nil && fresh(result) && len(result.Text) == len(text) && result.NodeBase.NodeType == NodeText && result.NodeBase.Pos == pos
 
 // Every use of a name gets a node of its own carrying the line it was read on (C12: errors name the failing line).
 //@ func (*Template).newIdentifier
